@@ -89,7 +89,15 @@ def resolve_func(t, defs, repo=None, module: str = "multi"):
     if t[0] == "sym" and repo is not None and repo.has_func(f"{module}.{t[1]}"):
         return repo.func(f"{module}.{t[1]}").node
     if t[0] == "lambda":
-        return defs.get(t[1])
+        lam = defs.get(t[1])
+        # `lambda: f(x)` is partial(f, x): follow it to the local function it wraps
+        if isinstance(lam, ast.Lambda) and isinstance(lam.body, ast.Call) and isinstance(lam.body.func, ast.Name):
+            inner = defs.get(lam.body.func.id)
+            if inner is None and repo is not None and repo.has_func(f"{module}.{lam.body.func.id}"):
+                inner = repo.func(f"{module}.{lam.body.func.id}").node
+            if inner is not None:
+                return inner
+        return lam
     if t[0] == "pcall" and t[1] in ("partial", "functools.partial") and t[2]:
         return resolve_func(t[2][0], defs, repo, module)
     return None
@@ -190,6 +198,21 @@ def check_kill_on_timeout(ctx: Ctx, oid: str) -> None:
         fj, fk = resolve_func(elt[1], defs, repo), resolve_func(elt[2], defs, repo)
         ob.site(where, e.node, "(term, kill) pair", pair=[show(elt[1]), show(elt[2])])
         ob.require(fj is not None and fk is not None, "terminate: the functions of the (terminate, kill) pair do not resolve to local functions")
+        # a closure created per element must bind the element *now* (partial, default argument): a lambda/def that merely
+        # mentions the loop variable sees its last value when the pool calls it -- every pair would act on one gateway
+        for role, t_ in (("terminate", elt[1]), ("kill", elt[2])):
+            lam = defs.get(t_[1]) if t_[0] in ("lambda", "func") else None
+            if lam is None:
+                continue
+            loops = [c for c in ast.walk(where.node) if isinstance(c, (ast.ListComp, ast.SetComp, ast.GeneratorExp, ast.For)) and any(x is lam for x in ast.walk(c))]
+            targets = {x.id for c in loops for g in (c.generators if not isinstance(c, ast.For) else [c]) for x in ast.walk(g.target) if isinstance(x, ast.Name)}
+            a_ = lam.args
+            own = {p.arg for p in a_.posonlyargs + a_.args + a_.kwonlyargs} | ({a_.vararg.arg} if a_.vararg else set()) | ({a_.kwarg.arg} if a_.kwarg else set())
+            body_nodes = ast.walk(lam.body) if isinstance(lam, ast.Lambda) else (x for b in lam.body for x in ast.walk(b))
+            late = sorted({x.id for x in body_nodes if isinstance(x, ast.Name) and isinstance(x.ctx, ast.Load) and x.id in targets and x.id not in own})
+            if late:
+                ob.violation(where, lam, f"the {role} function of each pair is a closure over the loop variable {late[0]!r} (bound late): when the pool runs the pairs every one of them "
+                                         "acts on the *last* gateway -- the others are never joined or killed", construct=f"late-bound {late[0]} in {role} closure")
 
         def io_calls(fn):
             body = fn.body if isinstance(fn, ast.Lambda) else fn
